@@ -34,7 +34,7 @@ def run(chk: Check) -> int:
     for name, doc in I.corpus_docs("C05"):
         col.add(I.rerun(doc), name)
     # --- sampled: all runner kinds, learners, task counts, failures, cancellation
-    n = 500 if chk.quick else 6000
+    n = 1500 if chk.quick else 8000
     for k in range(n):
         if col.enough():
             break
@@ -45,16 +45,16 @@ def run(chk: Check) -> int:
     #     at every wait, cancellation at every wait, every futures-were-already-running choice)
     exh, truncated = {}, 0
     if chk.quick:
-        plans = [(kind, nt, T, T - (1 if T > 1 else 0), "all", True) for kind in I.KINDS for nt in (2,) for T in (3,)]
-        plans += [("blocking", 3, 4, 4, "all", False), ("async_coro", 3, 4, 3, "sub", True)]
+        plans = [(kind, nt, T, T - 1, "all", True) for kind in I.KINDS for nt in (2, 3) for T in (2, 4)]
+        plans += [(kind, 3, 5, 5, "all", False) for kind in I.KINDS]
     else:
         plans = []
         for kind in I.KINDS:
             for nt in (1, 2, 3):
                 for T in range(1, 8):
                     plans.append((kind, nt, T, T, "all", False))            # run to completion, all orders
-                    if T <= 5:
-                        plans.append((kind, nt, T, max(1, T - 1), "all", True))   # early goal + cancellation
+                    if T >= 2:
+                        plans.append((kind, nt, T, T - 1, "all", True))     # early goal + cancellation at every wait
     for kind, nt, T, goal, orders, cancel in plans:
         spec = base_spec(kind, nt, T, goal, cancel)
         cnt = 0
